@@ -1,5 +1,6 @@
 (* Proof/ChanWakeL1.v -- layer 1 of the C05 invariant: lock ownership follows the
-   program points, and outside the F18 class no worker executes send_continue. *)
+   program points; an exception leaves a worker-side send_continue only on a closed channel
+   (in the runs where the ghost flag [taint] is not set). *)
 From Coq Require Import List ZArith Bool Arith Lia.
 From WV Require Import Model.ChanWake Proof.ChanWakeInv Proof.ChanWakeBase.
 Import ListNotations.
@@ -24,13 +25,12 @@ Ltac step_cases H :=
 Definition WInv1 (s : state) (j : nat) (p : wpc) : Prop :=
   (w_holds_o p = true -> olock s = Some (TW j)) /\
   (w_holds_r p = true -> rlock s = Some (TW j)) /\
-  w_sc p = false.
+  (w_scx p = true -> closed s = true).
 
 Record Inv1 (s : state) : Prop := {
   i1_io_o : io_holds_o (io s) = true -> olock s = Some TIO;
   i1_io_r : io_holds_r (io s) = true -> rlock s = Some TIO;
   i1_w : forall j p, nth_error (ws s) j = Some p -> WInv1 s j p;
-  i1_p100 : pend100 s = false;
   i1_hce : match io s with IoHCe k => hc_locked k = false | _ => True end
 }.
 
@@ -51,12 +51,12 @@ Ltac free_hyps :=
 
 (* worker lists after notify / add_task are pointwise "the same or a lock-free program point" *)
 Lemma winv1_notify : forall s s' j q,
-  olock s' = olock s -> rlock s' = rlock s ->
+  olock s' = olock s -> rlock s' = rlock s -> (closed s = true -> closed s' = true) ->
   (forall j p, nth_error (ws s) j = Some p -> WInv1 s j p) ->
   nth_error (notify_o (ws s)) j = Some q -> WInv1 s' j q.
 Proof.
-  intros s s' j q Ho Hr Hw Hq. destruct (notify_o_nth _ _ _ Hq) as (p & Hp & [->|[Pp ->]]).
-  - specialize (Hw _ _ Hp). unfold WInv1 in *. rewrite Ho, Hr. exact Hw.
+  intros s s' j q Ho Hr Hc Hw Hq. destruct (notify_o_nth _ _ _ Hq) as (p & Hp & [->|[Pp ->]]).
+  - specialize (Hw _ _ Hp). unfold WInv1 in *. rewrite Ho, Hr. intuition.
   - destruct p; simpl in Pp; try discriminate; unfold WInv1; simpl; repeat split; intros; discriminate.
 Qed.
 
@@ -72,13 +72,13 @@ Proof.
 Qed.
 
 Lemma add_task_locks : forall s, olock (add_task s) = olock s /\ rlock (add_task s) = rlock s /\
-  io (add_task s) = io s /\ pend100 (add_task s) = pend100 s.
+  io (add_task s) = io s /\ closed (add_task s) = closed s.
 Proof. intros. unfold add_task. simpl. destruct (qwait s); simpl; auto. Qed.
 
 Lemma inv1_step_io : forall c s ch s' l,
   Inv1 s -> step_io c s ch = Some (s', l) -> taint s' = false -> Inv1 s'.
 Proof.
-  intros c s ch s' l [Ho Hr Hw Hp He] H Ht. unfold step_io in H. step_cases H; free_hyps.
+  intros c s ch s' l [Ho Hr Hw He] H Ht. unfold step_io in H. step_cases H; free_hyps.
   all: unfold after_read, turn_start, hc_return, goio in *.
   all: repeat match goal with |- context [if ?b then _ else _] => destruct b eqn:? end.
   all: cbv [io_holds_o io_holds_r hc_locked hc_is_sc] in Ho, Hr.
@@ -86,12 +86,12 @@ Proof.
   all: try match goal with |- context [add_task ?x] =>
          let Ea := fresh in let Eb := fresh in let Ec := fresh in let Ed := fresh in
          destruct (add_task_locks x) as (Ea & Eb & Ec & Ed); constructor; simpl; rewrite ?Ea, ?Eb, ?Ec, ?Ed;
-         [ | | intros j p Hj; apply winv1_add_task in Hj; [|exact Hw]; unfold WInv1 in *; simpl; rewrite ?Ea, ?Eb; exact Hj | | ] end.
+         [ | | intros j p Hj; apply winv1_add_task in Hj; [|exact Hw]; unfold WInv1 in *; simpl; rewrite ?Ea, ?Eb, ?Ed; exact Hj | ] end.
   all: try constructor; simpl; try match goal with E : io _ = _ |- _ => rewrite ?E; simpl end; try (intros; discriminate); try (intros; reflexivity); auto.
   all: try (simpl in He; intros; congruence).
   all: try (intros j p Hj; specialize (Hw j p Hj); unfold WInv1 in *; simpl; intuition congruence).
   all: try (intros j p Hj; match goal with Hq : nth_error (notify_o (ws ?x)) _ = Some _ |- WInv1 ?y _ _ =>
-         apply (winv1_notify x y _ _ eq_refl eq_refl Hw Hq) end).
+         apply (winv1_notify x y _ _ eq_refl eq_refl (fun h => h) Hw Hq) end).
 Qed.
 
 Lemma nth_error_upd_inv : forall A (l : list A) i j v p,
@@ -115,10 +115,11 @@ Proof. intros. unfold WInv1; simpl; repeat split; intros; discriminate. Qed.
 Lemma inv1_step_w : forall c s i ch s' l,
   Inv1 s -> step_w c s i ch = Some (s', l) -> taint s' = false -> Inv1 s'.
 Proof.
-  intros c s i ch s' l [Ho Hr Hw Hp He] H Ht. unfold step_w in H.
+  intros c s i ch s' l [Ho Hr Hw He] H Ht. unfold step_w in H.
   destruct (getw s i) as [pc|] eqn:Hg; [|discriminate]. unfold getw in Hg.
   pose proof (Hw _ _ Hg) as Hi. unfold WInv1 in Hi.
-  step_cases H; free_hyps; simpl in Hi; destruct Hi as (Hio & Hir & Hisc); try discriminate Hisc.
+  step_cases H; free_hyps; simpl in Hi; destruct Hi as (Hio & Hir & Hisc).
+  all: simpl in Ht; try discriminate Ht.
   all: unfold setw, hw_exit in *.
   all: repeat match goal with |- context [if ?b then _ else _] => destruct b eqn:? end.
   all: repeat match goal with |- context [match ?b with SWr _ => _ | SEnd => _ end] => destruct b eqn:? end.
@@ -132,9 +133,9 @@ Proof.
             | try (apply ws_add_task_inv in Hj; destruct Hj as [->|Hj]; [apply winv1_notif|]);
               specialize (Hw _ _ Hj); unfold WInv1 in *; simpl;
               try match goal with |- context [add_task ?x] =>
-                destruct (add_task_locks x) as (Ea & Eb & Ec & Ed); rewrite ?Ea, ?Eb end;
+                destruct (add_task_locks x) as (Ea & Eb & Ec & Ed); rewrite ?Ea, ?Eb, ?Ed end;
               intuition congruence ]).
-  all: rewrite Hp in *; rewrite ?andb_false_r in *; simpl in *; discriminate.
+  all: let n := numgoals in idtac "remaining" n.
 Qed.
 
 Lemma inv1_step : forall c s ch s' l,
